@@ -377,27 +377,23 @@ theorem SideOK_epilogue {x : SideSt} {j : Nat} (h : ClSdOK x j) (isCut : Bool) :
   · rw [epilogue_chans]; split <;> exact fun h => h
   · rw [epilogue_ended]; intro h'; simp [h']
 
-/-- the callback-failure path: CLOSE_ERROR is written (if the IO is open) and the channel closed -/
+/-- the callback-failure path while the IO is open: CLOSE_ERROR is written and the channel closed -/
 theorem SideOK_failClose {x : SideSt} {j : Nat} (h : ∀ j, ClSdOK x j) (i e : Nat) (hcb : x.cbs i ≠ none) :
     ClSdOK (localClose (failOut x i e) i (some e) false) j := by
-  by_cases hio : x.ioOpen = true
-  · have hfo : failOut x i e =
-        { x with out := x.out ++ [.closeErr i e], closeSent := upd x.closeSent i true } := by
-      unfold failOut; rw [if_pos hio]
-    rw [hfo]
-    refine SideOK_closing (h j) (closes_closeErr i e) (by simp) (by simp) (by simp) (fun hj => ?_)
-      (fun hb => ?_) (fun hc => ?_) ?_
-    · exact ⟨localClose_chans_ne _ _ _ _ hj, localClose_cbs_ne _ _ _ _ hj, localClose_ended_ne _ _ _ _ hj⟩
-    · rw [localClose_chans_same]
-      by_cases hr : (x.chans i).registered = true
-      · simp [hr]
-      · rcases (h i).a1 hcb hb with h' | h'
-        · exact absurd h' hr
-        · simp [hr, h']
-    · simp at hc
-    · simp
-  · have hfo : failOut x i e = x := by unfold failOut; rw [if_neg hio]
-    rw [hfo]; exact SideOK_localClose (h j) _ _ _
+  have hfo : failOut x i e =
+      { x with out := x.out ++ [.closeErr i e], closeSent := upd x.closeSent i true } := rfl
+  rw [hfo]
+  refine SideOK_closing (h j) (closes_closeErr i e) (by simp) (by simp) (by simp) (fun hj => ?_)
+    (fun hb => ?_) (fun hc => ?_) ?_
+  · exact ⟨localClose_chans_ne _ _ _ _ hj, localClose_cbs_ne _ _ _ _ hj, localClose_ended_ne _ _ _ _ hj⟩
+  · rw [localClose_chans_same]
+    by_cases hr : (x.chans i).registered = true
+    · simp [hr]
+    · rcases (h i).a1 hcb hb with h' | h'
+      · exact absurd h' hr
+      · simp [hr, h']
+  · simp at hc
+  · simp
 
 theorem SideOK_cbAccept {x : SideSt} {j : Nat} (h : ClSdOK x j) (i : Nat) (v : Item) :
     ClSdOK (cbAccept x i v) j := by
@@ -420,8 +416,9 @@ theorem SideOK_handle (fails : Item → Bool) {x : SideSt} (h : ∀ j, ClSdOK x 
   cases f with
   | data i v =>
     apply handle_data_cases fails x w i v (fun y => ClSdOK y j)
-    · intro w' hcb _
+    · intro w' hcb _ _
       exact SideOK_failClose (fun j => SideOK_cbAccept (h j) i v) i v.val (by simp [hcb])
+    · intro w' _ _ _; exact SideOK_epilogue (SideOK_cbAccept (h j) i v) false
     · intro w' _ _; exact SideOK_cbAccept (h j) i v
     · intro q _ _ _; exact SideOK_qAccept (h j) i v
     · intro _ _; exact ⟨(h j).c1, (h j).c2, (h j).c3, (h j).a1, (h j).a2⟩
@@ -451,13 +448,12 @@ theorem handle_closeSent_mono (fails : Item → Bool) (x : SideSt) (w : Bool) (f
   cases f with
   | data i v =>
     apply handle_data_cases fails x w i v (fun y => y.closeSent j = true)
-    · intro w' _ _
+    · intro w' _ _ _
       rw [localClose_closeSent, failOut_closeSent]
-      split
-      · rw [upd_apply]; split
-        · rfl
-        · simpa using hc
+      rw [upd_apply]; split
+      · rfl
       · simpa using hc
+    · intro w' _ _ _; simpa using hc
     · intro w' _ _; simpa using hc
     · intro q _ _ _; simpa using hc
     · intro _ _; exact hc
@@ -472,8 +468,11 @@ theorem handle_broken_false (fails : Item → Bool) (x : SideSt) (w : Bool) (f :
   cases f with
   | data i v =>
     apply handle_data_cases fails x w i v (fun y => y.broken j = false → x.broken j = false)
-    · intro w' _ _ hb
+    · intro w' _ _ _ hb
       rw [localClose_broken, failOut_broken, cbAccept_broken] at hb
+      exact registerAll_broken_false (x := dataPre x i v) hb
+    · intro w' _ _ _ hb
+      rw [epilogue_broken, cbAccept_broken] at hb
       exact registerAll_broken_false (x := dataPre x i v) hb
     · intro w' _ _ hb
       rw [cbAccept_broken] at hb
@@ -496,11 +495,10 @@ theorem handle_dataOf (fails : Item → Bool) (x : SideSt) (w : Bool) (f : Frame
   cases f with
   | data i v =>
     apply handle_data_cases fails x w i v (fun y => dataOf j y.out = dataOf j x.out)
-    · intro w' _ _
+    · intro w' _ _ _
       rw [localClose_out, failOut_out]
-      split
-      · rw [dataOf_append_cl, cbAccept_out]; simp [dataOf]
-      · rw [cbAccept_out]
+      rw [dataOf_append_cl, cbAccept_out]; simp [dataOf]
+    · intro w' _ _ _; rw [epilogue_out, cbAccept_out]
     · intro w' _ _; rw [cbAccept_out]
     · intro q _ _ _; rw [qAccept_out]
     · intro _ _; rfl
@@ -522,7 +520,8 @@ theorem handle_closeSeen (fails : Item → Bool) (x : SideSt) (w : Bool) (f : Fr
   | data i v =>
     apply handle_data_cases fails x w i v
       (fun y => y.closeSeen j = true → x.closeSeen j = true ∨ Frame.isClosing j (Frame.data i v) = true)
-    · intro w' _ _ hs; simp at hs; exact Or.inl hs
+    · intro w' _ _ _ hs; simp at hs; exact Or.inl hs
+    · intro w' _ _ _ hs; simp at hs; exact Or.inl hs
     · intro w' _ _ hs; simp at hs; exact Or.inl hs
     · intro q _ _ _ hs; simp at hs; exact Or.inl hs
     · intro _ _ hs; exact Or.inl hs
